@@ -38,18 +38,18 @@ import (
 // with an uncached SearchUniversal(q, o) on the same *Database at that moment (command identity by pointer,
 // score bits).
 func init() {
-	Register(&Domain{Name: "cachelayer", Gen: genCacheLayer, Exec: execCacheLayer})
-	Register(&Domain{Name: "cachealias", Gen: genCacheAlias, Exec: execCacheAlias})
-	RegisterTool("c05-reoracle", toolReoracle)
+	Register(&Domain{Name: "cachelayer", Gen: c05GenCacheLayer, Exec: c05ExecCacheLayer})
+	Register(&Domain{Name: "cachealias", Gen: c05GenCacheAlias, Exec: c05ExecCacheAlias})
+	RegisterTool("c05-reoracle", c05ToolReoracle)
 }
 
 // ---------------------------------------------------------------------------------------------
 // option records <-> tokens (reflection, so that a field added to SearchOptions is driven too)
 // ---------------------------------------------------------------------------------------------
 
-var clOptType = reflect.TypeOf(database.SearchOptions{})
+var c05OptType = reflect.TypeOf(database.SearchOptions{})
 
-func clHexList(xs []string) string {
+func c05HexList(xs []string) string {
 	h := make([]string, len(xs))
 	for i, s := range xs {
 		h[i] = Hx(s)
@@ -57,11 +57,11 @@ func clHexList(xs []string) string {
 	return strings.Join(h, ",")
 }
 
-func clOptTokens(o database.SearchOptions) []string {
+func c05OptTokens(o database.SearchOptions) []string {
 	v := reflect.ValueOf(o)
 	var out []string
 	for i := 0; i < v.NumField(); i++ {
-		f, name := v.Field(i), clOptType.Field(i).Name
+		f, name := v.Field(i), c05OptType.Field(i).Name
 		switch f.Kind() {
 		case reflect.Int:
 			if f.Int() != 0 {
@@ -81,7 +81,7 @@ func clOptTokens(o database.SearchOptions) []string {
 			}
 		case reflect.Slice:
 			if !f.IsNil() {
-				out = append(out, name+"=["+clHexList(f.Interface().([]string))+"]")
+				out = append(out, name+"=["+c05HexList(f.Interface().([]string))+"]")
 			}
 		case reflect.Map:
 			if !f.IsNil() {
@@ -102,7 +102,7 @@ func clOptTokens(o database.SearchOptions) []string {
 	return out
 }
 
-func clParseOpts(toks []string) database.SearchOptions {
+func c05ParseOpts(toks []string) database.SearchOptions {
 	var o database.SearchOptions
 	v := reflect.ValueOf(&o).Elem()
 	for _, t := range toks {
@@ -160,7 +160,7 @@ func clParseOpts(toks []string) database.SearchOptions {
 	return o
 }
 
-func clNonFinite(o database.SearchOptions) bool {
+func c05NonFinite(o database.SearchOptions) bool {
 	v := reflect.ValueOf(o)
 	bad := func(x float64) bool { return math.IsNaN(x) || math.IsInf(x, 0) }
 	for i := 0; i < v.NumField(); i++ {
@@ -185,23 +185,23 @@ func clNonFinite(o database.SearchOptions) bool {
 // commands
 // ---------------------------------------------------------------------------------------------
 
-type clCmd struct {
+type c05Cmd struct {
 	Command, Description string
 	Keywords, Tags, Plat []string
 	Pipeline             bool
 }
 
-func clList(xs []string) string {
+func c05List(xs []string) string {
 	if xs == nil {
 		return "nil"
 	}
 	if len(xs) == 0 {
 		return "[]"
 	}
-	return clHexList(xs)
+	return c05HexList(xs)
 }
 
-func clUnList(s string) []string {
+func c05UnList(s string) []string {
 	switch s {
 	case "nil":
 		return nil
@@ -215,13 +215,13 @@ func clUnList(s string) []string {
 	return out
 }
 
-func (c clCmd) line() string {
-	return "cmd " + Hx(c.Command) + " " + Hx(c.Description) + " " + clList(c.Keywords) + " " + clList(c.Tags) + " " + clList(c.Plat) + " " + B(c.Pipeline)
+func (c c05Cmd) line() string {
+	return "cmd " + Hx(c.Command) + " " + Hx(c.Description) + " " + c05List(c.Keywords) + " " + c05List(c.Tags) + " " + c05List(c.Plat) + " " + B(c.Pipeline)
 }
 
-// clCommand builds a database.Command the way the loader does (lower-cased caches filled in).
-func clCommand(f []string) database.Command {
-	c := database.Command{Command: UnHx(f[1]), Description: UnHx(f[2]), Keywords: clUnList(f[3]), Tags: clUnList(f[4]), Platform: clUnList(f[5]), Pipeline: f[6] == "1"}
+// c05Command builds a database.Command the way the loader does (lower-cased caches filled in).
+func c05Command(f []string) database.Command {
+	c := database.Command{Command: UnHx(f[1]), Description: UnHx(f[2]), Keywords: c05UnList(f[3]), Tags: c05UnList(f[4]), Platform: c05UnList(f[5]), Pipeline: f[6] == "1"}
 	c.CommandLower = strings.ToLower(c.Command)
 	c.DescriptionLower = strings.ToLower(c.Description)
 	c.KeywordsLower = make([]string, len(c.Keywords))
@@ -235,7 +235,7 @@ func clCommand(f []string) database.Command {
 	return c
 }
 
-var clCore = []clCmd{
+var c05Core = []c05Cmd{
 	{"ls -la", "list all files in a directory", []string{"list", "files", "directory"}, nil, nil, false},
 	{"dir /s", "list all files in a directory", []string{"list", "files"}, nil, []string{"windows"}, false},
 	{"lsblk -f", "list block devices and disk partitions", []string{"disk", "list"}, []string{"storage"}, []string{"linux"}, false},
@@ -252,25 +252,25 @@ var clCore = []clCmd{
 	{"sort names.txt | uniq -c", "count duplicate lines in a text file", []string{"count", "text", "lines"}, nil, []string{"bash"}, true},
 }
 
-var clVocab = []string{"list", "files", "directory", "compress", "archive", "find", "search", "text", "show", "process",
+var c05Vocab = []string{"list", "files", "directory", "compress", "archive", "find", "search", "text", "show", "process",
 	"network", "disk", "partitions", "git", "commit", "docker", "containers", "count", "lines", "copy", "remove", "install",
 	"package", "download", "server", "running", "pattern", "message", "changes", "connections"}
 
-var clPlatPool = [][]string{nil, nil, nil, {"linux"}, {"windows"}, {"macos"}, {"cross-platform"}, {"linux", "macos"}, {"LINUX"}, {"powershell"}, {"bash"}, {"plan9"}, {}}
+var c05PlatPool = [][]string{nil, nil, nil, {"linux"}, {"windows"}, {"macos"}, {"cross-platform"}, {"linux", "macos"}, {"LINUX"}, {"powershell"}, {"bash"}, {"plan9"}, {}}
 
-func clRandCmd(r *Rng) clCmd {
+func c05RandCmd(r *Rng) c05Cmd {
 	tool := Pick(r, []string{"foo", "barctl", "zed", "cp", "curl", "kubectl", "xq", "mytool"})
 	n := r.Range(3, 6)
 	ws := make([]string, n)
 	for i := range ws {
-		ws[i] = Pick(r, clVocab)
+		ws[i] = Pick(r, c05Vocab)
 	}
-	c := clCmd{Command: tool + " --" + Pick(r, clVocab), Description: strings.Join(ws, " "), Plat: Pick(r, clPlatPool), Pipeline: r.Chance(1, 5)}
+	c := c05Cmd{Command: tool + " --" + Pick(r, c05Vocab), Description: strings.Join(ws, " "), Plat: Pick(r, c05PlatPool), Pipeline: r.Chance(1, 5)}
 	for i := r.Intn(3); i > 0; i-- {
-		c.Keywords = append(c.Keywords, Pick(r, clVocab))
+		c.Keywords = append(c.Keywords, Pick(r, c05Vocab))
 	}
 	if r.Chance(1, 4) {
-		c.Tags = []string{Pick(r, clVocab)}
+		c.Tags = []string{Pick(r, c05Vocab)}
 	}
 	if r.Chance(1, 6) {
 		c.Command += " | " + Pick(r, []string{"sort", "head -n 3", "wc -l"})
@@ -278,9 +278,9 @@ func clRandCmd(r *Rng) clCmd {
 	return c
 }
 
-func clGenDB(r *Rng, tier string) []clCmd {
-	var db []clCmd
-	for _, c := range clCore {
+func c05GenDB(r *Rng, tier string) []c05Cmd {
+	var db []c05Cmd
+	for _, c := range c05Core {
 		if r.Chance(4, 5) {
 			db = append(db, c)
 		}
@@ -293,7 +293,7 @@ func clGenDB(r *Rng, tier string) []clCmd {
 		if len(db) > 0 && r.Chance(1, 6) {
 			db = append(db, db[r.Intn(len(db))]) // exact duplicate: ties
 		} else {
-			db = append(db, clRandCmd(r))
+			db = append(db, c05RandCmd(r))
 		}
 	}
 	for i := len(db) - 1; i > 0; i-- {
@@ -303,8 +303,8 @@ func clGenDB(r *Rng, tier string) []clCmd {
 	return db
 }
 
-func clMutateDB(r *Rng, db []clCmd, tier string) []clCmd {
-	out := append([]clCmd{}, db...)
+func c05MutateDB(r *Rng, db []c05Cmd, tier string) []c05Cmd {
+	out := append([]c05Cmd{}, db...)
 	switch r.Intn(7) {
 	case 0: // identical content
 	case 1:
@@ -313,9 +313,9 @@ func clMutateDB(r *Rng, db []clCmd, tier string) []clCmd {
 			out = append(out[:i], out[i+1:]...)
 		}
 	case 2:
-		out = append(out, clRandCmd(r))
+		out = append(out, c05RandCmd(r))
 	case 3:
-		out = append(out, Pick(r, clCore))
+		out = append(out, Pick(r, c05Core))
 	case 4:
 		if len(out) > 1 {
 			i, j := r.Intn(len(out)), r.Intn(len(out))
@@ -324,11 +324,11 @@ func clMutateDB(r *Rng, db []clCmd, tier string) []clCmd {
 	case 5:
 		if len(out) > 0 {
 			i := r.Intn(len(out))
-			out[i].Plat = Pick(r, clPlatPool)
+			out[i].Plat = Pick(r, c05PlatPool)
 			out[i].Pipeline = !out[i].Pipeline
 		}
 	default:
-		return clGenDB(r, tier)
+		return c05GenDB(r, tier)
 	}
 	return out
 }
@@ -337,40 +337,40 @@ func clMutateDB(r *Rng, db []clCmd, tier string) []clCmd {
 // requests
 // ---------------------------------------------------------------------------------------------
 
-var clQueries = []string{"list files", "compress directory", "find text", "show process", "disk", "git commit", "docker containers",
+var c05Queries = []string{"list files", "compress directory", "find text", "show process", "disk", "git commit", "docker containers",
 	"network connections", "list all files in a directory", "how to compress a directory", "show me all running processes",
 	"find files containing text", "count duplicate lines", "résumé files", "list σ files"}
 
 // misspellings (one letter dropped): no index term matches, so only the typo fallback can answer
-var clTypos = []string{"compres", "procss", "netwrk", "partitons", "contaners", "direcory", "comit", "archve", "duplcate", "dockr"}
+var c05Typos = []string{"compres", "procss", "netwrk", "partitons", "contaners", "direcory", "comit", "archve", "duplcate", "dockr"}
 
-var clDegenerate = []string{"", "the", "a of", "??", "x"}
+var c05Degenerate = []string{"", "the", "a of", "??", "x"}
 
-func clBaseQuery(r *Rng) string {
+func c05BaseQuery(r *Rng) string {
 	switch x := r.Intn(100); {
 	case x < 50:
-		return Pick(r, clQueries)
+		return Pick(r, c05Queries)
 	case x < 75:
-		return Pick(r, clTypos)
+		return Pick(r, c05Typos)
 	case x < 82:
-		return Pick(r, clDegenerate)
+		return Pick(r, c05Degenerate)
 	case x < 90: // long query: exercises the term cap
 		n := r.Range(12, 18)
 		ws := make([]string, n)
 		for i := range ws {
-			ws[i] = Pick(r, clVocab)
+			ws[i] = Pick(r, c05Vocab)
 		}
 		return strings.Join(ws, " ")
 	case x < 95:
-		return Pick(r, clQueries) + " " + Pick(r, clTypos)
+		return Pick(r, c05Queries) + " " + Pick(r, c05Typos)
 	default:
 		return Pick(r, []string{"list\xff files", "disk \xc3", "find\x00text"})
 	}
 }
 
-// clVariant returns a query with the same normal form ToLower(TrimSpace(q)): case changes (incl. U+0130 for i and
+// c05Variant returns a query with the same normal form ToLower(TrimSpace(q)): case changes (incl. U+0130 for i and
 // U+212A for k, which lower-case to ASCII), leading / trailing white space (incl. NBSP, U+3000, U+0085).
-func clVariant(r *Rng, q string) string {
+func c05Variant(r *Rng, q string) string {
 	out := q
 	if r.Chance(2, 3) {
 		var sb strings.Builder
@@ -406,9 +406,9 @@ func clVariant(r *Rng, q string) string {
 	return out
 }
 
-var clBoostWords = []string{"list", "files", "compress", "text", "process", "disk", "docker"}
+var c05BoostWords = []string{"list", "files", "compress", "text", "process", "disk", "docker"}
 
-func clSetField(r *Rng, o *database.SearchOptions, name string, nan bool) {
+func c05SetField(r *Rng, o *database.SearchOptions, name string, nan bool) {
 	f := reflect.ValueOf(o).Elem().FieldByName(name)
 	switch f.Kind() {
 	case reflect.Int:
@@ -427,7 +427,7 @@ func clSetField(r *Rng, o *database.SearchOptions, name string, nan bool) {
 	case reflect.Float64:
 		dom := []float64{0, math.Copysign(0, -1), 1.5, 2, 0.5, -1}
 		if nan {
-			dom = []float64{math.NaN(), math.Inf(1), math.Inf(-1), 2}
+			dom = []float64{math.NaN(), math.Float64frombits(0xfff8000000000002), math.Inf(1), math.Inf(-1), 2}
 		}
 		f.SetFloat(Pick(r, dom))
 	case reflect.String:
@@ -439,24 +439,25 @@ func clSetField(r *Rng, o *database.SearchOptions, name string, nan bool) {
 			f.Set(reflect.ValueOf([]string{}))
 		}
 	case reflect.Map:
-		w1, w2 := Pick(r, clBoostWords), Pick(r, clBoostWords)
+		w1, w2 := Pick(r, c05BoostWords), Pick(r, c05BoostWords)
 		dom := []map[string]float64{nil, {}, {w1: 2}, {w1: 0.5, w2: 3}, {w1: 0}, {w1: -1}, {w1: 2, "b\xffd": 1}, {w1: 2, "b\xfed": 1}, {w1: 2, "b\ufffdd": 1}}
 		if nan {
-			dom = []map[string]float64{{w1: math.NaN()}, {w1: math.Inf(1)}, {w1: 2, w2: math.NaN()}, {"x": math.NaN()}}
+			dom = []map[string]float64{{w1: math.NaN()}, {w1: math.Inf(1)}, {w1: math.Inf(-1)}, {w1: 2, w2: math.NaN()}, {"x": math.NaN()},
+				{"x": math.Float64frombits(0x7ff8000000000002)}, {"x": math.Float64frombits(0xfff8000000000001)}, {"x": math.NaN(), "b\xffd": 1}, {"x": math.NaN(), "b\xfed": 1}}
 		}
 		f.Set(reflect.ValueOf(Pick(r, dom)))
 	}
 }
 
-func clFieldNames() []string {
-	out := make([]string, clOptType.NumField())
+func c05FieldNames() []string {
+	out := make([]string, c05OptType.NumField())
 	for i := range out {
-		out[i] = clOptType.Field(i).Name
+		out[i] = c05OptType.Field(i).Name
 	}
 	return out
 }
 
-func clBaseOpts(r *Rng, nan bool) database.SearchOptions {
+func c05BaseOpts(r *Rng, nan bool) database.SearchOptions {
 	var o database.SearchOptions
 	o.Limit = Pick(r, []int{0, 2, 3, 5, 10})
 	o.UseFuzzy = r.Chance(2, 3)
@@ -464,24 +465,24 @@ func clBaseOpts(r *Rng, nan bool) database.SearchOptions {
 	if o.UseFuzzy && r.Bool() {
 		o.FuzzyThreshold = -30
 	}
-	names := clFieldNames()
+	names := c05FieldNames()
 	for i := r.Intn(3); i > 0; i-- {
-		clSetField(r, &o, Pick(r, names), false)
+		c05SetField(r, &o, Pick(r, names), false)
 	}
 	if nan {
 		if r.Bool() {
-			clSetField(r, &o, "PipelineBoost", true)
+			c05SetField(r, &o, "PipelineBoost", true)
 		} else {
-			clSetField(r, &o, "ContextBoosts", true)
+			c05SetField(r, &o, "ContextBoosts", true)
 		}
-		if !clNonFinite(o) {
+		if !c05NonFinite(o) {
 			o.ContextBoosts = map[string]float64{"x": math.NaN()}
 		}
 	}
 	return o
 }
 
-type clReq struct {
+type c05Req struct {
 	q string
 	o database.SearchOptions
 }
@@ -490,7 +491,7 @@ type clReq struct {
 // oracle: a fresh uncached engine on the commands in force
 // ---------------------------------------------------------------------------------------------
 
-func clAnsID(db *database.Database, res []database.SearchResult) string {
+func c05AnsID(db *database.Database, res []database.SearchResult) string {
 	if len(res) == 0 {
 		return "-"
 	}
@@ -513,14 +514,14 @@ func clAnsID(db *database.Database, res []database.SearchResult) string {
 	return "a" + strconv.FormatUint(h.Sum64(), 16)
 }
 
-func clSearchLine(l string) (kind string, q string, o database.SearchOptions, ok bool) {
+func c05SearchLine(l string) (kind string, q string, o database.SearchOptions, ok bool) {
 	f := strings.Fields(l)
 	if len(f) < 3 {
 		return "", "", o, false
 	}
 	switch f[0] {
 	case "search", "msearch":
-		return f[0], UnHx(f[1]), clParseOpts(f[3:]), true
+		return f[0], UnHx(f[1]), c05ParseOpts(f[3:]), true
 	case "searchl", "msearchl":
 		if len(f) != 4 {
 			return "", "", o, false
@@ -530,9 +531,9 @@ func clSearchLine(l string) (kind string, q string, o database.SearchOptions, ok
 	return "", "", o, false
 }
 
-// clReoracle recomputes the oracle token of every search line by simulating the commands in force and running
+// c05Reoracle recomputes the oracle token of every search line by simulating the commands in force and running
 // a fresh uncached engine for each request.
-func clReoracle(lines []string) []string {
+func c05Reoracle(lines []string) []string {
 	out := make([]string, len(lines))
 	var pending []database.Command
 	var db *database.Database
@@ -545,7 +546,7 @@ func clReoracle(lines []string) []string {
 		switch f[0] {
 		case "cmd":
 			if len(f) == 7 {
-				pending = append(pending, clCommand(f))
+				pending = append(pending, c05Command(f))
 			}
 		case "new", "update":
 			if f[0] == "new" || db != nil {
@@ -553,8 +554,8 @@ func clReoracle(lines []string) []string {
 				pending = nil
 			}
 		case "search", "msearch", "searchl", "msearchl":
-			if _, q, o, ok := clSearchLine(l); ok && db != nil {
-				f[2] = clAnsID(db, db.SearchUniversal(q, o))
+			if _, q, o, ok := c05SearchLine(l); ok && db != nil {
+				f[2] = c05AnsID(db, db.SearchUniversal(q, o))
 				out[i] = strings.Join(f, " ")
 			}
 		}
@@ -562,14 +563,14 @@ func clReoracle(lines []string) []string {
 	return out
 }
 
-func toolReoracle(args []string) int {
+func c05ToolReoracle(args []string) int {
 	sc := bufio.NewScanner(os.Stdin)
 	sc.Buffer(make([]byte, 1<<20), 1<<28)
 	var lines []string
 	for sc.Scan() {
 		lines = append(lines, sc.Text())
 	}
-	for _, l := range clReoracle(lines) {
+	for _, l := range c05Reoracle(lines) {
 		fmt.Println(l)
 	}
 	return 0
@@ -579,8 +580,8 @@ func toolReoracle(args []string) int {
 // generator
 // ---------------------------------------------------------------------------------------------
 
-func clSearchOp(r *Rng, kind string, q string, o database.SearchOptions) string {
-	toks := clOptTokens(o)
+func c05SearchOp(r *Rng, kind string, q string, o database.SearchOptions) string {
+	toks := c05OptTokens(o)
 	limitOnly := true
 	for _, t := range toks {
 		if !strings.HasPrefix(t, "Limit=") {
@@ -593,20 +594,20 @@ func clSearchOp(r *Rng, kind string, q string, o database.SearchOptions) string 
 	return strings.TrimRight(kind+" "+Hx(q)+" ? "+strings.Join(toks, " "), " ")
 }
 
-func genCacheLayer(r *Rng, tier string, idx int, args map[string]string) []string {
+func c05GenCacheLayer(r *Rng, tier string, idx int, args map[string]string) []string {
 	nan := args["nan"] != ""
 	evict := args["evict"] != ""
 	var focus []string
 	if args["focus"] != "" {
 		for _, f := range strings.Split(args["focus"], ",") {
-			if _, ok := clOptType.FieldByName(f); ok {
+			if _, ok := c05OptType.FieldByName(f); ok {
 				focus = append(focus, f)
 			}
 		}
 	}
 	focusQuery := args["focusquery"] != ""
-	names := clFieldNames()
-	db := clGenDB(r, tier)
+	names := c05FieldNames()
+	db := c05GenDB(r, tier)
 	var ops []string
 	for _, c := range db {
 		ops = append(ops, c.line())
@@ -619,16 +620,16 @@ func genCacheLayer(r *Rng, tier string, idx int, args map[string]string) []strin
 	}
 	// a small pool of base requests, so that repeats, variants and single-field deltas of the same request recur
 	nbase := r.Range(2, 5)
-	base := make([]clReq, nbase)
+	base := make([]c05Req, nbase)
 	for i := range base {
-		base[i] = clReq{clBaseQuery(r), clBaseOpts(r, nan)}
+		base[i] = c05Req{c05BaseQuery(r), c05BaseOpts(r, nan)}
 		if focusQuery {
-			base[i].q = Pick(r, clTypos)
+			base[i].q = Pick(r, c05Typos)
 			base[i].o.UseFuzzy = true
 		}
 	}
 	// derived requests are remembered too (a delta is then repeated later)
-	pool := append([]clReq{}, base...)
+	pool := append([]c05Req{}, base...)
 	n := r.Range(8, 40)
 	if tier == "thorough" {
 		n = r.Range(8, 120)
@@ -657,13 +658,13 @@ func genCacheLayer(r *Rng, tier string, idx int, args map[string]string) []strin
 			req := Pick(r, pool)
 			if evict && r.Chance(9, 10) { // many distinct keys: fill the LRU past its capacity
 				uniq++
-				req = clReq{Pick(r, clQueries) + " " + Pick(r, clVocab) + Itoa(uniq), req.o}
+				req = c05Req{Pick(r, c05Queries) + " " + Pick(r, c05Vocab) + Itoa(uniq), req.o}
 			}
 			y := r.Intn(100)
 			switch {
 			case y < 30: // exact repeat
 			case y < 55 || focusQuery: // same normal form, other spelling
-				req.q = clVariant(r, req.q)
+				req.q = c05Variant(r, req.q)
 			case y < 90: // exactly one option field changed
 				o := req.o
 				// copy reference fields before changing anything (requests must not share maps)
@@ -671,14 +672,14 @@ func genCacheLayer(r *Rng, tier string, idx int, args map[string]string) []strin
 				if len(focus) > 0 && r.Chance(3, 4) {
 					name = Pick(r, focus)
 				}
-				before := strings.Join(clOptTokens(o), " ")
+				before := strings.Join(c05OptTokens(o), " ")
 				for try := 0; try < 6; try++ {
-					clSetField(r, &o, name, false)
-					if strings.Join(clOptTokens(o), " ") != before {
+					c05SetField(r, &o, name, false)
+					if strings.Join(c05OptTokens(o), " ") != before {
 						break
 					}
 				}
-				if nan && !clNonFinite(o) {
+				if nan && !c05NonFinite(o) {
 					o.ContextBoosts = map[string]float64{"x": math.NaN()}
 				}
 				req.o = o
@@ -686,12 +687,12 @@ func genCacheLayer(r *Rng, tier string, idx int, args map[string]string) []strin
 					pool = append(pool, req)
 				}
 			default: // new request
-				req = clReq{clBaseQuery(r), clBaseOpts(r, nan)}
+				req = c05Req{c05BaseQuery(r), c05BaseOpts(r, nan)}
 				if len(pool) < 24 {
 					pool = append(pool, req)
 				}
 			}
-			ops = append(ops, clSearchOp(r, kindOf(), req.q, req.o))
+			ops = append(ops, c05SearchOp(r, kindOf(), req.q, req.o))
 		case x < 68:
 			ops = append(ops, "inval")
 		case x < 72:
@@ -699,7 +700,7 @@ func genCacheLayer(r *Rng, tier string, idx int, args map[string]string) []strin
 			// usually a few searches while off, then on again
 			for k := r.Intn(3); k > 0; k-- {
 				req := Pick(r, pool)
-				ops = append(ops, clSearchOp(r, kindOf(), req.q, req.o))
+				ops = append(ops, c05SearchOp(r, kindOf(), req.q, req.o))
 			}
 			if r.Chance(4, 5) {
 				ops = append(ops, "enable 1")
@@ -718,7 +719,7 @@ func genCacheLayer(r *Rng, tier string, idx int, args map[string]string) []strin
 				ops = append(ops, "stats")
 			}
 		case x < 95:
-			db = clMutateDB(r, db, tier)
+			db = c05MutateDB(r, db, tier)
 			for _, c := range db {
 				ops = append(ops, c.line())
 			}
@@ -732,14 +733,14 @@ func genCacheLayer(r *Rng, tier string, idx int, args map[string]string) []strin
 	if evict {
 		ops = append(ops, "stats", "order")
 	}
-	return clReoracle(ops)
+	return c05Reoracle(ops)
 }
 
 // ---------------------------------------------------------------------------------------------
 // execution on the real code + monitor
 // ---------------------------------------------------------------------------------------------
 
-type clLayer struct {
+type c05Layer struct {
 	cdb  *database.CachedDatabase
 	mdb  *database.MonitoredDatabase
 	mgr  *cache.Manager
@@ -749,7 +750,7 @@ type clLayer struct {
 	reg  map[string]int    // LRU key -> op number of the request that first stored it
 }
 
-func clEqualResults(a, b []database.SearchResult) bool {
+func c05EqualResults(a, b []database.SearchResult) bool {
 	if len(a) != len(b) {
 		return false
 	}
@@ -761,7 +762,7 @@ func clEqualResults(a, b []database.SearchResult) bool {
 	return true
 }
 
-func clShow(db *database.Database, res []database.SearchResult) []string {
+func c05Show(db *database.Database, res []database.SearchResult) []string {
 	out := make([]string, len(res))
 	for i, r := range res {
 		idx := -1
@@ -779,19 +780,19 @@ func clShow(db *database.Database, res []database.SearchResult) []string {
 	return out
 }
 
-// clNormReq identifies a request up to what the property allows to share an entry: normalised query + option tokens.
-func clNormReq(q string, o database.SearchOptions) (string, map[string]string) {
+// c05NormReq identifies a request up to what the property allows to share an entry: normalised query + option tokens.
+func c05NormReq(q string, o database.SearchOptions) (string, map[string]string) {
 	m := map[string]string{}
-	for _, t := range clOptTokens(o) {
+	for _, t := range c05OptTokens(o) {
 		i := strings.IndexByte(t, '=')
 		m[t[:i]] = t[i+1:]
 	}
 	return strings.ToLower(strings.TrimSpace(q)), m
 }
 
-func execCacheLayer(ops []string, mon *Mon) []string {
+func c05ExecCacheLayer(ops []string, mon *Mon) []string {
 	var pending []database.Command
-	var L *clLayer
+	var L *c05Layer
 	out := make([]string, 0, len(ops))
 	type seenReq struct {
 		q string
@@ -812,14 +813,14 @@ func execCacheLayer(ops []string, mon *Mon) []string {
 				out = append(out, "bad-op")
 				continue
 			}
-			pending = append(pending, clCommand(f))
+			pending = append(pending, c05Command(f))
 			out = append(out, "ok")
 			continue
 		}
 		if f[0] == "new" && len(f) == 2 {
 			db := &database.Database{Commands: pending}
 			pending = nil
-			L = &clLayer{on: true, seen: map[string]string{}, reg: map[string]int{}}
+			L = &c05Layer{on: true, seen: map[string]string{}, reg: map[string]int{}}
 			if f[1] == "m" {
 				L.mdb = database.NewMonitoredDatabase(db)
 				L.cdb = L.mdb.CachedDatabase
@@ -838,7 +839,7 @@ func execCacheLayer(ops []string, mon *Mon) []string {
 		}
 		switch f[0] {
 		case "search", "msearch", "searchl", "msearchl":
-			kind, q, o, ok := clSearchLine(line)
+			kind, q, o, ok := c05SearchLine(line)
 			if !ok || (strings.HasPrefix(kind, "m") && L.mdb == nil) {
 				out = append(out, "bad-op")
 				continue
@@ -869,21 +870,21 @@ func execCacheLayer(ops []string, mon *Mon) []string {
 			db := L.cdb.Database
 			fresh := db.SearchUniversal(q, o)
 			fresh2 := db.SearchUniversal(q, o)
-			if !clEqualResults(fresh, fresh2) {
-				mon.Hit("C05", "engine-nondeterministic", map[string]interface{}{"op": line, "first": clShow(db, fresh), "second": clShow(db, fresh2)})
+			if !c05EqualResults(fresh, fresh2) {
+				mon.Hit("C05", "engine-nondeterministic", map[string]interface{}{"op": line, "first": c05Show(db, fresh), "second": c05Show(db, fresh2)})
 			}
-			nonfinite := clNonFinite(o)
-			if !clEqualResults(res, fresh) {
-				d := map[string]interface{}{"op": line, "query": q, "options": clOptTokens(o), "returned": clShow(db, res), "uncached": clShow(db, fresh), "hit": dh > 0}
+			nonfinite := c05NonFinite(o)
+			if !c05EqualResults(res, fresh) {
+				d := map[string]interface{}{"op": line, "query": q, "options": c05OptTokens(o), "returned": c05Show(db, res), "uncached": c05Show(db, fresh), "hit": dh > 0}
 				cls := "uncached-answer-differs"
 				if dh > 0 {
 					cls = "cached-answer-differs"
 					if len(order) > 0 {
 						if by, ok := L.seen[order[0]]; ok {
 							d["entry_stored_by"] = by
-							_, bq, bo, _ := clSearchLine(by)
-							nq1, m1 := clNormReq(bq, bo)
-							nq2, m2 := clNormReq(q, o)
+							_, bq, bo, _ := c05SearchLine(by)
+							nq1, m1 := c05NormReq(bq, bo)
+							nq2, m2 := c05NormReq(q, o)
 							if nq1 != nq2 || !reflect.DeepEqual(m1, m2) || bq != q {
 								cls = "shared-entry-different-answer"
 							}
@@ -921,12 +922,12 @@ func execCacheLayer(ops []string, mon *Mon) []string {
 			if nonfinite {
 				mon.Tag("nonfinite-options")
 			}
-			nq, m := clNormReq(q, o)
+			nq, m := c05NormReq(q, o)
 			isNew, delta, variant := true, false, false
 			for _, p := range reqs {
 				if p.q == nq {
 					diff := 0
-					for _, name := range clFieldNames() {
+					for _, name := range c05FieldNames() {
 						if p.m[name] != m[name] {
 							diff++
 						}
@@ -950,13 +951,13 @@ func execCacheLayer(ops []string, mon *Mon) []string {
 			if variant {
 				mon.Tag("hit-through-variant")
 			}
-			for _, t := range clTypos {
+			for _, t := range c05Typos {
 				if nq == t && len(res) > 0 {
 					mon.Tag("typo-fallback-answer")
 					break
 				}
 			}
-			out = append(out, fmt.Sprintf("%s %d %d %d %d %d %d", clAnsID(db, res), dh, dm, after.Size, after.Hits, after.Misses, after.Evictions))
+			out = append(out, fmt.Sprintf("%s %d %d %d %d %d %d", c05AnsID(db, res), dh, dm, after.Size, after.Hits, after.Misses, after.Evictions))
 			if after.Evictions > before.Evictions {
 				mon.Tag("evict")
 			}
@@ -1030,25 +1031,25 @@ func execCacheLayer(ops []string, mon *Mon) []string {
 //                              answer is compared with the uncached engine.
 // ---------------------------------------------------------------------------------------------
 
-func genCacheAlias(r *Rng, tier string, idx int, args map[string]string) []string {
-	db := clGenDB(r, tier)
+func c05GenCacheAlias(r *Rng, tier string, idx int, args map[string]string) []string {
+	db := c05GenDB(r, tier)
 	var ops []string
 	for _, c := range db {
 		ops = append(ops, c.line())
 	}
 	ops = append(ops, Pick(r, []string{"new c", "new m"}))
 	for i := r.Range(2, 8); i > 0; i-- {
-		o := clBaseOpts(r, false)
-		w := Pick(r, clBoostWords)
+		o := c05BaseOpts(r, false)
+		w := Pick(r, c05BoostWords)
 		o.ContextBoosts = map[string]float64{w: Pick(r, []float64{2, 3, 0.5})}
 		o.Platforms = []string{Pick(r, []string{"windows", "linux", "macos"})}
 		o.AllPlatforms = false
-		ops = append(ops, "alias "+Hx(Pick(r, clQueries))+" "+strings.Join(clOptTokens(o), " "))
+		ops = append(ops, "alias "+Hx(Pick(r, c05Queries))+" "+strings.Join(c05OptTokens(o), " "))
 	}
 	return ops
 }
 
-func execCacheAlias(ops []string, mon *Mon) []string {
+func c05ExecCacheAlias(ops []string, mon *Mon) []string {
 	var pending []database.Command
 	var cdb *database.CachedDatabase
 	var mdb *database.MonitoredDatabase
@@ -1057,7 +1058,7 @@ func execCacheAlias(ops []string, mon *Mon) []string {
 		f := strings.Fields(line)
 		switch {
 		case len(f) == 7 && f[0] == "cmd":
-			pending = append(pending, clCommand(f))
+			pending = append(pending, c05Command(f))
 			out = append(out, "ok")
 		case len(f) == 2 && f[0] == "new":
 			db := &database.Database{Commands: pending}
@@ -1072,8 +1073,8 @@ func execCacheAlias(ops []string, mon *Mon) []string {
 			out = append(out, "ok")
 		case len(f) >= 2 && f[0] == "alias" && cdb != nil:
 			q := UnHx(f[1])
-			o := clParseOpts(f[2:])
-			orig := clParseOpts(f[2:]) // independent copy of the original values
+			o := c05ParseOpts(f[2:])
+			orig := c05ParseOpts(f[2:]) // independent copy of the original values
 			search := func(o database.SearchOptions) []database.SearchResult {
 				if mdb != nil {
 					return mdb.SearchWithOptionsAndMonitoring(q, o)
@@ -1082,14 +1083,14 @@ func execCacheAlias(ops []string, mon *Mon) []string {
 			}
 			check := func(step string, o database.SearchOptions, res []database.SearchResult) {
 				fresh := cdb.Database.SearchUniversal(q, o)
-				if !clEqualResults(res, fresh) {
-					mon.Hit("C05", "aliasing-wrong-answer", map[string]interface{}{"op": line, "step": step, "options": clOptTokens(o),
-						"returned": clShow(cdb.Database, res), "uncached": clShow(cdb.Database, fresh)})
+				if !c05EqualResults(res, fresh) {
+					mon.Hit("C05", "aliasing-wrong-answer", map[string]interface{}{"op": line, "step": step, "options": c05OptTokens(o),
+						"returned": c05Show(cdb.Database, res), "uncached": c05Show(cdb.Database, fresh)})
 				}
 			}
 			r1 := search(o)
 			check("first", o, r1)
-			id1 := clAnsID(cdb.Database, r1)
+			id1 := c05AnsID(cdb.Database, r1)
 			// the caller now reuses its map and slice for something else
 			for k := range o.ContextBoosts {
 				o.ContextBoosts[k] = 7
@@ -1111,7 +1112,7 @@ func execCacheAlias(ops []string, mon *Mon) []string {
 			r3 := search(orig)
 			check("original-values-again", orig, r3)
 			mon.Tag("alias-probe")
-			out = append(out, fmt.Sprintf("%s %s %s", id1, clAnsID(cdb.Database, r2), clAnsID(cdb.Database, r3)))
+			out = append(out, fmt.Sprintf("%s %s %s", id1, c05AnsID(cdb.Database, r2), c05AnsID(cdb.Database, r3)))
 		default:
 			out = append(out, "bad-op")
 		}
